@@ -539,23 +539,24 @@ Qed.
 Lemma kv_setval k v l : inc_nodes l -> map kv (lv_setval k v l) = sl_upd k v (map kv l).
 Proof.
   unfold inc_nodes, lv_setval. induction l as [|m r IH]; cbn [map sl_upd inc]; intros S; [reflexivity|].
-  destruct S as [F S]. unfold kv at 2. destruct (Z.eqb_spec k (nkey m)) as [E|N].
-  - cbn. f_equal. rewrite <- map_map with (g := kv) (f := fun m0 => if k =? nkey m0 then (k, v, nheight m0) else m0).
-    f_equal. rewrite <- (map_id r) at 2. apply map_ext_in. intros a Ha.
+  destruct S as [F S]. unfold kv at 3. destruct (Z.eqb_spec k (nkey m)) as [E|N].
+  - unfold kv at 1. cbn [nkey nval fst snd]. f_equal. rewrite map_map. apply map_ext_in. intros a Ha.
     destruct (Z.eqb_spec k (nkey a)) as [E'|_]; [|reflexivity].
     exfalso. rewrite Forall_forall in F. specialize (F (nkey a) (in_map nkey _ _ Ha)). lia.
   - fold (kv m). f_equal. apply IH, S.
+Qed.
+
+Lemma filter_all {A} (p : A -> bool) l : (forall a, In a l -> p a = true) -> filter p l = l.
+Proof.
+  induction l as [|a r IH]; cbn; intros H; [reflexivity|]. rewrite (H a (or_introl eq_refl)). f_equal. apply IH. auto.
 Qed.
 
 Lemma kv_unlink k l : inc_nodes l -> map kv (lv_unlink k l) = sl_del k (map kv l).
 Proof.
   unfold inc_nodes, lv_unlink. induction l as [|m r IH]; cbn [map filter sl_del inc]; intros S; [reflexivity|].
   destruct S as [F S]. unfold kv at 2. destruct (Z.eqb_spec k (nkey m)) as [E|N]; cbn [negb].
-  - f_equal. rewrite <- (map_id r) at 2. f_equal. 
-    assert (H : filter (fun m0 => negb (k =? nkey m0)) r = r).
-    { clear IH S. induction r as [|a r IHr]; cbn; [reflexivity|]. inversion F; subst.
-      destruct (Z.eqb_spec k (nkey a)); [lia|]. cbn. f_equal. auto. }
-    rewrite H. symmetry. apply map_id.
+  - rewrite filter_all; [reflexivity|]. intros a Ha. rewrite Forall_forall in F.
+    specialize (F (nkey a) (in_map nkey _ _ Ha)). destruct (Z.eqb_spec k (nkey a)); [lia|reflexivity].
   - cbn [map]. fold (kv m). f_equal. apply IH, S.
 Qed.
 
@@ -571,7 +572,7 @@ Qed.
 
 Theorem sk_step_traverse ls o h : skinv ls -> sk_traverse (sk_step ls (o, h)) = sl_step (sk_traverse ls) o.
 Proof.
-  intros (L & F & C). unfold sk_traverse.
+  intros (L & F & C). unfold sk_traverse. change (fun n : snode => (nkey n, nval n)) with kv.
   assert (NE : ls <> []) by (intros ->; discriminate L).
   assert (S0 : inc_nodes (level0 ls)).
   { destruct ls as [|l0 r]; [congruence|]. inversion F; subst. assumption. }
@@ -594,17 +595,21 @@ Proof.
       destruct (k <? k'); [reflexivity|]. destruct (Z.eqb_spec k k') as [->|_]; [tauto|]. f_equal. apply IH; tauto.
   - unfold sk_update. now rewrite L0, kv_setval.
   - unfold sk_erase. now rewrite L0, kv_unlink.
-  - destruct (level0 ls) as [|n r] eqn:E0; [now rewrite E0|].
-    unfold sk_erase. rewrite L0, E0, kv_unlink by exact S0. cbn [map sl_del tl]. unfold kv at 1. cbn [fst].
-    now rewrite Z.eqb_refl.
-  - destruct (level0 ls) as [|x r] eqn:E0 using rev_ind; [cbn; now rewrite E0|].
-    clear IHr. rewrite rev_app_distr. cbn [rev app]. unfold sk_erase. rewrite L0, E0, unlink_last by exact S0.
-    rewrite map_app. cbn [map]. now rewrite removelast_last.
+  - destruct (level0 ls) as [|n r] eqn:E0.
+    + rewrite ?E0. reflexivity.
+    + unfold sk_erase. rewrite L0. rewrite kv_unlink by (first [exact S0|rewrite E0; exact S0|rewrite <- E0; exact S0]). rewrite ?E0.
+      cbn [map sl_del tl]. unfold kv at 1. cbn [fst]. now rewrite Z.eqb_refl.
+  - destruct (rev (level0 ls)) as [|n r'] eqn:E0.
+    + assert (E1 : level0 ls = []) by (rewrite <- (rev_involutive (level0 ls)), E0; reflexivity).
+      rewrite E1. reflexivity.
+    + assert (E1 : level0 ls = rev r' ++ [n]) by (rewrite <- (rev_involutive (level0 ls)), E0; reflexivity).
+      unfold sk_erase. rewrite L0, E1. rewrite unlink_last by (rewrite <- E1; exact S0).
+      rewrite map_app. cbn [map]. now rewrite removelast_last.
 Qed.
 
 Theorem sk_run_traverse os : sk_traverse (sk_run os) = sl_run (map fst os).
 Proof.
   unfold sk_run, sl_run. assert (H : sk_traverse sk_init = []) by reflexivity. rewrite <- H.
   generalize sk_init_inv. generalize sk_init. induction os as [|[o h] os IH]; intros ls I; cbn [fold_left map fst]; [reflexivity|].
-  rewrite <- (sk_step_traverse o h I). apply IH. now apply sk_step_inv.
+  rewrite <- (sk_step_traverse _ o h I). apply IH. now apply sk_step_inv.
 Qed.
